@@ -598,5 +598,24 @@ func run(r *ev.Run) {
 		}(i)
 	}
 	wg.Wait()
+	// part 3: destination write faults, one copy per write of the backup
+	nF := r.Scale(16, 96)
+	fr, ff := 0, 0
+	for i := 0; i < nF; i++ {
+		wg.Add(1)
+		sem <- struct{}{}
+		go func(i int) {
+			defer wg.Done()
+			defer func() { <-sem }()
+			g := r.Rng(fmt.Sprintf("fault-%d", i))
+			a, b := runFaultSweep(r, dir, cs[i%len(cs)], g.Uint64())
+			mu.Lock()
+			fr += a
+			ff += b
+			mu.Unlock()
+		}(i)
+	}
+	wg.Wait()
+	r.Extra("destination_faults", map[string]any{"indexes": nF, "copies_with_one_failing_write": fr, "faults_that_fired": ff})
 	r.Extra("stress", map[string]any{"rounds": nS, "copies_verified": sc, "copies_overlapping_inflight_batch": so})
 }
